@@ -22,6 +22,10 @@ open Ssl Ssl.Ty Ssl.Check Ssl.CheckF
 /-- the weird helper of bin_op.rs used for the result of `op=`: the left type if `[]` matches it, else the right type -/
 def helperRet (c r : Ty) : Ty := if sub (.arr .never) c then c else r
 
+/-- the fields of a struct literal: a repeated name keeps its LAST initialiser (the literal fills a map in order) -/
+def lastFields (fts : List (String × Ty)) : List (String × Ty) :=
+  fts.reverse.foldl (fun acc (p : String × Ty) => if acc.any (fun q => q.1 == p.1) then acc else acc ++ [p]) []
+
 /-- declarations in order: a later one shadows an earlier one -/
 def bindAll (bs : List (String × Ty)) (g : TEnv) : TEnv := bs.foldl (fun g b => b :: g) g
 
@@ -189,12 +193,31 @@ def tyS : Bool → Option Ty → TEnv → Expr → Res Ty
       | .multi _ => .unsup
       | .never => .unsup
       | _ => .ill
+  -- struct literals and field access on a (non-union) struct type
+  | lp, r, g, .struct fs => (tySFields lp r g fs).bind fun fts => okW (.struct (lastFields fts))
+  | lp, r, g, .facc e k => (tyS lp r g e).bind fun t =>
+      match t with
+      | .struct fts => (match lookupF k fts with
+        | some x => okW x
+        | none => .ill)
+      | .multi _ =>
+        -- a union of struct types that all have the field: `is_struct`, `has_field`, `field_type` (join)
+        if !isStruct t then .ill else
+        if !Ty.hasField k t then .ill else
+        (match fieldType k t with
+         | some T => okW T
+         | none => .unsup)
+      | .never => .unsup
+      | _ => .ill
   | lp, _, _, .brk => if lp then .ok .never else .ill
   | lp, _, _, .cont => if lp then .ok .never else .ill
   | lp, _, _, _ => .unsup
 def tySOpt : Bool → Option Ty → TEnv → Option Expr → Res (Option Ty)
   | lp, _, _, none => .ok none
   | lp, r, g, some e => (tyS lp r g e).bind fun t => .ok (some t)
+def tySFields : Bool → Option Ty → TEnv → List (String × Expr) → Res (List (String × Ty))
+  | lp, _, _, [] => .ok []
+  | lp, r, g, (k, e) :: es => (tyS lp r g e).bind fun t => (tySFields lp r g es).bind fun ts => .ok ((k, t) :: ts)
 def tySList : Bool → Option Ty → TEnv → List Expr → Res (List Ty)
   | lp, _, _, [] => .ok []
   | lp, r, g, e :: es => (tyS lp r g e).bind fun t => (tySList lp r g es).bind fun ts => .ok (t :: ts)
